@@ -177,6 +177,11 @@ def rec_requires(ctx, rc):
 # ------------------------------------------------------------------------------ writer contracts
 def _emit(buffer, segs):
     if not isinstance(buffer, (Sink, LocalBytesIO)):
+        import io as _io
+        if isinstance(buffer, _io.IOBase):
+            # a real long-lived buffer (module-level or captured) handed to a contracted writer: state shared between calls
+            from kvc.interp import FrameViolation
+            raise FrameViolation(f"FRAME: a records writer is handed a shared {type(buffer).__name__} object (not a buffer of this call)")
         raise Undecided("records contract: buffer argument is not a sink")
     buffer.emit(*segs)
 
